@@ -104,8 +104,46 @@ def fam_c01_isvalid(man):
     return out
 
 
-FAMILIES = {'C03': fam_c03, 'C01v': fam_c01_isvalid}
-FAMILY_PROPERTY = {'C03': 'C03', 'C01v': 'C01'}
+VC_SCRIPT = ('  try any_goals (exact ⇓ _ => ⌜True⌝)\n  all_goals (try (mleave; done))\n  all_goals (try (simp; done))\n'
+             '  all_goals (clear_jps; py_vc)\n')
+
+
+def _contract(man, fam, post, post_name):
+    F = man['functions']
+    out = []
+    for mod, m in sorted(man['modules'].items()):
+        v = F.get(mod + ':validate')
+        if not v or not v['ok'] or v['rtype'] != 'str' or not v['params'] or v['ptypes'][0] != 'str':
+            continue
+        cl = closure(F, mod + ':validate')
+        if not all(F[c]['ok'] for c in cl):
+            continue
+        ns = m['ns']
+        today = '(today__ : Date) ' if v['today'] else ''
+        bs = ' '.join('(%s : %s)' % (mangle(p) + "'", lean_type(t)) for p, t in zip(v['params'], v['ptypes']))
+        args = (' today__' if v['today'] else '') + ''.join(' ' + mangle(p) + "'" for p in v['params'])
+        imports = sorted({'Gen.' + man['modules'][c.split(':')[0]]['ns'] for c in cl}) + ['Lemmas.Vc']
+        name = 'Props.Auto.%s.%s.%s' % (fam, ns, post_name)
+        src = ('theorem %s %s%s :\n    Py.Holds (%s%s) (fun v => %s) (fun e => e.isValidation = true) := by\n'
+               '  apply Py.holds_of_triple\n  mvcgen [%s]\n%s' % (
+                   name, today, bs, v['lean'], args, post, ', '.join(F[c]['lean'] for c in cl), VC_SCRIPT))
+        out.append({'name': name, 'ns': ns, 'covers': mod, 'family': fam, 'src': src, 'imports': imports,
+                    'prelude': 'open Py Std.Do\nset_option mvcgen.warning false\npy_setup\n'})
+    return out
+
+
+def fam_c01_contract(man):
+    """validate(x, o) raises nothing but ValidationError subclasses (all strings, all options, all dates)"""
+    return _contract(man, 'C01c', 'True', 'validate_contract')
+
+
+def fam_c01_nonempty(man):
+    """... and what it returns is a non-empty string (so bool(validate(x)) is True exactly when it returns)"""
+    return _contract(man, 'C01n', 'v ≠ []', 'validate_nonempty')
+
+
+FAMILIES = {'C03': fam_c03, 'C01v': fam_c01_isvalid, 'C01c': fam_c01_contract, 'C01n': fam_c01_nonempty}
+FAMILY_PROPERTY = {'C03': 'C03', 'C01v': 'C01', 'C01c': 'C01', 'C01n': 'C01'}
 
 
 def emit(all_candidates=False, only_family=None):
